@@ -1042,6 +1042,10 @@ func (e *Engine) evalCall(c *evalCtx, n *ECall) Val {
 		case "closed":
 			ch := e.eval(c, n.Args[0])
 			return boolVal(c.st.loadLeaf("chan|closed", []*Term{ch.t()}, BoolSort))
+		case "sent":
+			// sent(ch): number of values sent on channel ch so far (ghost log of the sequential channel model)
+			ch := e.eval(c, n.Args[0])
+			return Val{types.Typ[types.Uint64], []*Term{c.st.loadLeaf("chan|sent", []*Term{ch.t()}, Ref64)}}
 		case "closes":
 			ch := e.eval(c, n.Args[0])
 			return Val{types.Typ[types.Uint64], []*Term{c.st.loadLeaf("chan|closes", []*Term{ch.t()}, Ref64)}}
